@@ -110,6 +110,30 @@ def _gen_seeded():
     return summ + head + "\n".join(rows) + "\n"
 
 
+def _gen_scoreboard():
+    rows = []
+    tot_f = tot_a = 0
+    seen = set()
+    for pid in ids:
+        if pid not in P.PROPS:
+            continue
+        ep = os.path.join(V, "evidence", pid + ".json")
+        if not os.path.exists(ep):
+            continue
+        ev = json.load(open(ep))
+        c = ev["coverage"]
+        fns = c.get("functions_under_contract", [])
+        vb = [f for f in fns if f.get("status", "").startswith("body verified")]
+        asum = [f for f in fns if "assumed" in f.get("status", "")]
+        kani = [f for f in fns if f.get("status", "").startswith("kani")]
+        for f in vb + asum:
+            seen.add(f["fn"] + "@" + f.get("file", ""))
+        rows.append("| %s | %s | %d | %d | %d | %d/%d | %s | %.1f |" % (pid, ", ".join(P.PROPS[pid].get("vx", [])) or "-", len(vb), len(asum), len(kani), c["discharged"], c["obligations"], (("%d/%d" % (c.get("bounded_discharged", 0), c.get("bounded_obligations", 0))) if c.get("bounded_obligations") else "-"), c.get("solver_s", 0)))
+    head = "| property | Verus units | fns: body verified | fns: contract assumed | Kani harness fns | obligations discharged | bounded (not counted) | solver s |\n|---|---|---|---|---|---|---|---|\n"
+    note = "\n%d distinct extracted functions of /repo are under contract across all units (a function shared by several properties is listed under each). An \"obligation\" is one Verus verification item (function body, loop, lemma or spec well-formedness check) or one Kani check.\n" % len(seen)
+    return head + "\n".join(rows) + "\n" + note
+
+
 def _splice(text, name, body):
     a = "<!-- BEGIN GENERATED:%s" % name
     b = "<!-- END GENERATED:%s -->" % name
@@ -125,4 +149,6 @@ for fn in ("DESIGN.md", "DESIGN.md.new"):
         t = open(dp).read()
         t = _splice(t, "properties", _gen_props())
         t = _splice(t, "seeded", _gen_seeded())
+        if "BEGIN GENERATED:scoreboard" in t:
+            t = _splice(t, "scoreboard", _gen_scoreboard())
         open(dp, "w").write(t)
